@@ -251,6 +251,8 @@ def _check_offrule_reader(fn, fa, p, rd):
     raw0 = ("eq", val, 0) in facts
     prev = _previous_entry(fa, p, cur, lid, facts)
     atoms = [k for k in a[1]]
+    if prev is not None and prev[0] != "prevpair":
+        prev = _strip_views(prev)
     uses_prev = prev is not None and a[0] == 0 and a[1] == {("f", prev, "offset"): 1, ("f", prev, "length"): 1}
     if prev is not None and prev[0] == "prevpair":
         uses_prev = a[0] == 0 and a[1] == {("proj", prev[1], 0): 1, ("proj", prev[1], 1): 1}
@@ -296,7 +298,14 @@ def _previous_entry(fa, p, cur, lid, facts):
                 if len(somes) >= 1 and len(somes) + len(nones) == len(srcs) and all(_same_entry(s[2][0], cur) for s in somes):
                     return cand if cand == base else cand
                 # … or a loop-carried Option<(offset, length)> of the entry just completed
-                if len(somes) >= 1 and len(nones) >= 1 and len(somes) + len(nones) == len(srcs) and all(_pair_of(s[2][0], cur) for s in somes):
+                stored_offs = [unmut(ev_.d["value"]) for ev_ in p.events if ev_.kind == "assign" and ev_.d.get("place") is not None and
+                               unmut(ev_.d["place"]) == ("f", cur, "offset")]
+                # the sources are collected over all paths (each with its own read ids): every one must have the shape (…, cur.length); the one
+                # assigned on *this* path must carry exactly the offset stored into cur on this path (or read back from it)
+                nm = base[1].rpartition(":")[2]
+                own = [unmut(ev_.d["value"]) for ev_ in p.events if ev_.kind == "assign" and ev_.d.get("name") == nm and ev_.loops and ev_.loops[-1] == lid]
+                own_ok = (not own) or all(is_call_to(o, lambda x: x == "core::option::Option::Some") and o[2] and _pair_of(o[2][0], cur, stored_offs) for o in own)
+                if len(somes) >= 1 and len(nones) >= 1 and len(somes) + len(nones) == len(srcs) and own_ok and all(_pair_of(s[2][0], cur, None) for s in somes):
                     return ("prevpair", base)
     return None
 
@@ -310,9 +319,15 @@ def _strip_views(t):
     return t
 
 
-def _pair_of(t, cur):
+def _pair_of(t, cur, stored_offs=()):
+    """(cur.offset, cur.length) — the offset either read back from the entry or the very value that was just stored into it"""
     t = unmut(t)
-    return isinstance(t, tuple) and t and t[0] == "tup" and len(t[1]) == 2 and unmut(t[1][0]) == ("f", cur, "offset") and unmut(t[1][1]) == ("f", cur, "length")
+    if not (isinstance(t, tuple) and t and t[0] == "tup" and len(t[1]) == 2 and unmut(t[1][1]) == ("f", cur, "length")):
+        return False
+    if stored_offs is None:
+        return True       # shape only
+    first = unmut(t[1][0])
+    return first == ("f", cur, "offset") or first in stored_offs or any(aff_eq(affine(first), affine(so)) for so in stored_offs)
 
 
 def _same_entry(t, cur):
